@@ -918,7 +918,18 @@ func (w *world) oracleC16() {
 		}
 	}
 	for _, c := range w.clients {
+		desynced := false
 		for _, tx := range c.txs {
+			if desynced {
+				// LMTP after a repeated LHLO mid-transaction: go-smtp still
+				// answers for (and names) the abandoned transaction's
+				// recipients - the known finding recorded under C03. Replies
+				// can no longer be attributed to this transaction's commands.
+				continue
+			}
+			if w.lmtp && tx.Ending == endEhloMidTx {
+				desynced = true
+			}
 			check("MAIL", tx.UTF8, tx.MailReply)
 			for _, rr := range tx.RcptReplies {
 				check("RCPT", tx.UTF8, rr)
